@@ -55,16 +55,23 @@ def run(tier, wd):
         if c["kind"] == "opts" and len(c["decls"]) <= 3:
             for k in range(len(c["decls"])):
                 vcases.append(dict(c, version=k))
-    cases = cases + vcases
+    # ... and with a help request served between two declarations (the name table does not care)
+    rcases = []
+    for c in cases:
+        if 2 <= len(c["decls"]) <= 3:
+            for k in range(len(c["decls"]) - 1):
+                rcases.append(dict(c, runafter=k))
+    cases = cases + vcases + rcases
+    rep.cov["sequences_with_a_run_in_between"] = len(rcases)
     rep.cov["sequences_with_a_version_declaration"] = len(vcases)
-    results = core.run_harness(binpath, "decl", [dict(concrete(c), **({"version": c["version"]} if "version" in c else {})) for c in cases], wd)
+    results = core.run_harness(binpath, "decl", [dict(concrete(c), **{k: c[k] for k in ("version", "runafter") if k in c}) for c in cases], wd)
     rnd = random.Random(core.seed())
     nontriv = 0
     for c, r in zip(cases, results):
         rep.cov["evaluations"] += 1
         why = judge(c, r)
         if why:
-            rep.violation("%s %s%s: %s" % (c["kind"], c["decls"], " (declaration %d through Version)" % c["version"] if "version" in c else "", why), {"engine": "decl", "case": c})
+            rep.violation("%s %s%s: %s" % (c["kind"], c["decls"], (" (declaration %d through Version)" % c["version"] if "version" in c else "") + (" (help request after declaration %d)" % c["runafter"] if "runafter" in c else ""), why), {"engine": "decl", "case": c})
         if "panic" in c["outcome"]:
             nontriv += 1
         if len(rep.cov["samples"]) < 5 and len(c["decls"]) == 3 and "panic" in c["outcome"] and "ok" in c["outcome"][1:] and rnd.random() < 0.01:
@@ -86,7 +93,7 @@ def replay(path, wd):
         c = json.load(f)["replay"]["case"]
     binpath = core.build_harness()
     decls = [n.replace("~", "\u0142") for n in c["decls"]] if c["kind"] == "args" else c["decls"]
-    r = core.run_harness(binpath, "decl", [dict({"kind": c["kind"], "decls": decls}, **({"version": c["version"]} if "version" in c else {}))], wd, shards=1)[0]
+    r = core.run_harness(binpath, "decl", [dict({"kind": c["kind"], "decls": decls}, **{k: c[k] for k in ("version", "runafter") if k in c})], wd, shards=1)[0]
     why = judge(c, r)
     print("replay: %s %s -> %s ; %s" % (c["kind"], c["decls"], json.dumps(r), why or "agrees with the specification"))
     return 1 if why else 0
